@@ -397,6 +397,26 @@ func (f *Frame) enterLoop(h *ssa.BasicBlock, li *loopInfo, live []inEdge, header
 			st.Ghost[k] = c.fresh("loopghost", SBool)
 		}
 	}
+	// records of the loop's own calls that do not exist yet get a state
+	// variable of their own (one value per loop-head state, so that an
+	// invariant and a later clause speak about the same record)
+	if !names["*"] {
+		var ns []string
+		for n := range names {
+			ns = append(ns, n)
+		}
+		sort.Strings(ns)
+		for _, n := range ns {
+			for _, pre := range []string{"called:", "failed:"} {
+				if _, ok := st.Ghost[pre+n]; !ok {
+					if st.Ghost == nil {
+						st.Ghost = map[string]Term{}
+					}
+					st.Ghost[pre+n] = c.fresh("loopghost", SBool)
+				}
+			}
+		}
+	}
 	if st.GhostUnknown && st.GhostLoopNames == nil {
 		names["*"] = true // everything was already unknown
 	}
@@ -405,6 +425,18 @@ func (f *Frame) enterLoop(h *ssa.BasicBlock, li *loopInfo, live []inEdge, header
 	}
 	st.GhostUnknown = true
 	st.GhostLoopNames = names
+	{
+		// a new generation of unknown records; those the loop cannot touch keep their value
+		memo := map[string]Term{}
+		if !names["*"] {
+			for k, v := range st.GhostMemo {
+				if !names[ghostKeyName(k)] {
+					memo[k] = v
+				}
+			}
+		}
+		st.GhostMemo = memo
+	}
 	for cell := range cells {
 		st.Cells[cell] = c.freshLeaves("loopcell_"+cell.Name, cell.Typ)
 		st.assume(c, typeInv(cell.Typ, st.Cells[cell]))
